@@ -176,13 +176,20 @@ pub open spec fn proven_shards(s: Seq<Option<ShareWithProof>>) -> Seq<Seq<u8>> {
     Seq::new(s.len(), |i: int| match s[i] { Some(sp) => sp.leaf.share@, None => Seq::<u8>::empty() })
 }
 // leaves of the rebuilt axis tree: raw namespace of the share in the original half, parity namespace in the other half
-pub open spec fn rebuilt_leaves(shards: Seq<Seq<u8>>, k: int, n: int) -> Seq<(Seq<u8>, NamespaceId)> {
-    Seq::new(n as nat, |i: int| (shards[i], if i < k { ns_of_bytes(shards[i].subrange(0, NS_SIZE as int)).id } else { parity_ns().id }))
+// the namespace under which leaf i of row/column `idx` is committed in the block's NMTs (the erasured namespaced
+// merkle tree of the protocol): only the first quadrant (idx < k and i < k) carries the share's own namespace, every leaf
+// of a parity row/column and every leaf in the second half carries the parity namespace.  [taken from the protocol, not
+// from validate(): an earlier version of this spec mirrored the code and thereby encoded defect D19]
+pub open spec fn leaf_ns_id(shards: Seq<Seq<u8>>, k: int, idx: int, i: int) -> NamespaceId {
+    if i < k && idx < k { ns_of_bytes(shards[i].subrange(0, NS_SIZE as int)).id } else { parity_ns().id }
+}
+pub open spec fn rebuilt_leaves(shards: Seq<Seq<u8>>, k: int, idx: int, n: int) -> Seq<(Seq<u8>, NamespaceId)> {
+    Seq::new(n as nat, |i: int| (shards[i], leaf_ns_id(shards, k, idx, i)))
 }
 
 // the NMT refuses leaf n of the rebuilt axis: the axis cannot be committed to at all
-pub open spec fn nmt_stuck(enc: Seq<Seq<u8>>, k: int, n: int) -> bool {
-    0 <= n < enc.len() && nmt_rejects(rebuilt_leaves(enc, k, n), enc[n], if n < k { ns_of_bytes(enc[n].subrange(0, NS_SIZE as int)).id } else { parity_ns().id })
+pub open spec fn nmt_stuck(enc: Seq<Seq<u8>>, k: int, idx: int, n: int) -> bool {
+    0 <= n < enc.len() && nmt_rejects(rebuilt_leaves(enc, k, idx, n), enc[n], leaf_ns_id(enc, k, idx, n))
 }
 pub open spec fn befp_checks(p: BadEncodingFraudProof, header: ExtendedHeader) -> bool {
     let w = header.dah.row_roots@.len() as int;
@@ -217,9 +224,9 @@ impl BadEncodingFraudProof {
                         None => true,
                         Some(enc) => enc.len() == w ==> (
                             // a share too short to carry a namespace, a tree that cannot be built (namespace order), or a different root
-                            (exists|i: int| 0 <= i < k && (#[trigger] enc[i]).len() < NS_SIZE)
-                            || (exists|n: int| 0 <= n <= w && #[trigger] nmt_stuck(enc, k, n))
-                            || nmt_root_of(rebuilt_leaves(enc, k, w)) != expected),
+                            (self.index < k && exists|i: int| 0 <= i < k && (#[trigger] enc[i]).len() < NS_SIZE)
+                            || (exists|n: int| 0 <= n <= w && #[trigger] nmt_stuck(enc, k, self.index as int, n))
+                            || nmt_root_of(rebuilt_leaves(enc, k, self.index as int, w)) != expected),
                     },
                 }
             },
@@ -272,7 +279,7 @@ impl BadEncodingFraudProof {
 //@hint before "let mut nmt = Nmt::default();"
         let ghost enc = vviews(rebuilt_shares@);
 //@hint after "let mut nmt = Nmt::default();"
-        proof { assert(nmt.leaves@ =~= rebuilt_leaves(enc, ods_width as int, 0)); }
+        proof { assert(nmt.leaves@ =~= rebuilt_leaves(enc, ods_width as int, self.index as int, 0)); }
 //@sub E9 "match share .get(..NS_SIZE) .and_then(|raw| <[u8; NS_SIZE]>::try_from(raw).ok()) { Some(raw) => Namespace::new_unchecked(raw), None => return Ok(()), }" => "match vx_raw_namespace(share) { Some(ns) => ns, None => return Ok(()), }"
 //@sub E9 "Namespace::PARITY_SHARE" => "Namespace::parity_share()"
 //@sub E9 "if nmt.push_leaf(share, *ns).map_err(Error::Nmt).is_err() {" => "if nmt.push_leaf(share, ns.nmt_id()).is_err() {"
@@ -282,15 +289,15 @@ impl BadEncodingFraudProof {
                 __i2 <= rebuilt_shares@.len(), enc == vviews(rebuilt_shares@), rebuilt_shares@.len() == square_width, ods_width == square_width / 2,
                 befp_checks(*self, *header), square_width == header.dah.row_roots@.len(), (self.index as int) < square_width,
                 leo_reconstruct(proven_shards(self.shares@), ods_width as int) == Some(rec), leo_encode(rec, ods_width as int) == Some(enc),
-                nmt.leaves@ == rebuilt_leaves(enc, ods_width as int, __i2 as int),
-                forall|i: int| 0 <= i < __i2 && i < ods_width ==> (#[trigger] enc[i]).len() >= NS_SIZE,
+                nmt.leaves@ == rebuilt_leaves(enc, ods_width as int, self.index as int, __i2 as int),
+                self.index < ods_width ==> forall|i: int| 0 <= i < __i2 && i < ods_width ==> (#[trigger] enc[i]).len() >= NS_SIZE,
             decreases rebuilt_shares@.len() - __i2
-//@hint before "let ns = if n < ods_width {"
-            proof { if n < ods_width && enc[n as int].len() < NS_SIZE { assert(enc[n as int].len() < NS_SIZE); } }
+//@loopstart 2
+            proof { if __i2 - 1 < ods_width && enc[__i2 as int - 1].len() < NS_SIZE { assert(enc[__i2 as int - 1].len() < NS_SIZE); } }
 //@loopend 2
-            proof { assert(nmt.leaves@ =~= rebuilt_leaves(enc, ods_width as int, __i2 as int)); }
+            proof { assert(nmt.leaves@ =~= rebuilt_leaves(enc, ods_width as int, self.index as int, __i2 as int)); }
 //@hint before "// we couldn't rebuild the nmt from reconstructed data"
-                proof { assert(nmt_stuck(enc, ods_width as int, __i2 as int - 1)); }
+                proof { assert(nmt_stuck(enc, ods_width as int, self.index as int, __i2 as int - 1)); }
 //@end
 }
 
